@@ -342,26 +342,26 @@ func init() {
 
 // analyzeNameSpec: rendered paths, reviewed against CPython 3.4 Python/symtable.c analyze_name().
 var analyzeNameSpec = []string{
-	"[(flags & DefGlobal) != 0 && (flags & DefParam) != 0] SyntaxError",
-	"[(flags & DefGlobal) != 0 && (flags & DefParam) == 0 && (flags & DefNonlocal) != 0] SyntaxError",
-	"[(flags & DefGlobal) != 0 && (flags & DefParam) == 0 && (flags & DefNonlocal) == 0 && bound != nil] scopes[name] = ScopeGlobalExplicit; global.Add(name); bound.Discard(name)",
-	"[(flags & DefGlobal) != 0 && (flags & DefParam) == 0 && (flags & DefNonlocal) == 0 && bound == nil] scopes[name] = ScopeGlobalExplicit; global.Add(name)",
-	"[(flags & DefGlobal) == 0 && (flags & DefNonlocal) != 0 && (flags & DefParam) != 0] SyntaxError",
-	"[(flags & DefGlobal) == 0 && (flags & DefNonlocal) != 0 && (flags & DefParam) == 0 && bound != nil && !(bound.Contains(name))] SyntaxError",
-	"[(flags & DefGlobal) == 0 && (flags & DefNonlocal) != 0 && (flags & DefParam) == 0 && bound != nil && bound.Contains(name)] scopes[name] = ScopeFree; st.Free = true; free.Add(name)",
-	"[(flags & DefGlobal) == 0 && (flags & DefNonlocal) != 0 && (flags & DefParam) == 0 && bound == nil] SyntaxError",
-	"[(flags & DefGlobal) == 0 && (flags & DefNonlocal) == 0 && (flags & DefBound) != 0] scopes[name] = ScopeLocal; local.Add(name); global.Discard(name)",
-	"[(flags & DefGlobal) == 0 && (flags & DefNonlocal) == 0 && (flags & DefBound) == 0 && bound != nil && !(bound.Contains(name)) && global != nil && !(global.Contains(name)) && !(st.Nested)] scopes[name] = ScopeGlobalImplicit",
-	"[(flags & DefGlobal) == 0 && (flags & DefNonlocal) == 0 && (flags & DefBound) == 0 && bound != nil && !(bound.Contains(name)) && global != nil && !(global.Contains(name)) && st.Nested] st.Free = true; scopes[name] = ScopeGlobalImplicit",
-	"[(flags & DefGlobal) == 0 && (flags & DefNonlocal) == 0 && (flags & DefBound) == 0 && bound != nil && !(bound.Contains(name)) && global != nil && global.Contains(name)] scopes[name] = ScopeGlobalImplicit",
-	"[(flags & DefGlobal) == 0 && (flags & DefNonlocal) == 0 && (flags & DefBound) == 0 && bound != nil && !(bound.Contains(name)) && global == nil && !(st.Nested)] scopes[name] = ScopeGlobalImplicit",
-	"[(flags & DefGlobal) == 0 && (flags & DefNonlocal) == 0 && (flags & DefBound) == 0 && bound != nil && !(bound.Contains(name)) && global == nil && st.Nested] st.Free = true; scopes[name] = ScopeGlobalImplicit",
-	"[(flags & DefGlobal) == 0 && (flags & DefNonlocal) == 0 && (flags & DefBound) == 0 && bound != nil && bound.Contains(name)] scopes[name] = ScopeFree; st.Free = true; free.Add(name)",
-	"[(flags & DefGlobal) == 0 && (flags & DefNonlocal) == 0 && (flags & DefBound) == 0 && bound == nil && global != nil && !(global.Contains(name)) && !(st.Nested)] scopes[name] = ScopeGlobalImplicit",
-	"[(flags & DefGlobal) == 0 && (flags & DefNonlocal) == 0 && (flags & DefBound) == 0 && bound == nil && global != nil && !(global.Contains(name)) && st.Nested] st.Free = true; scopes[name] = ScopeGlobalImplicit",
-	"[(flags & DefGlobal) == 0 && (flags & DefNonlocal) == 0 && (flags & DefBound) == 0 && bound == nil && global != nil && global.Contains(name)] scopes[name] = ScopeGlobalImplicit",
-	"[(flags & DefGlobal) == 0 && (flags & DefNonlocal) == 0 && (flags & DefBound) == 0 && bound == nil && global == nil && !(st.Nested)] scopes[name] = ScopeGlobalImplicit",
-	"[(flags & DefGlobal) == 0 && (flags & DefNonlocal) == 0 && (flags & DefBound) == 0 && bound == nil && global == nil && st.Nested] st.Free = true; scopes[name] = ScopeGlobalImplicit",
+	"[bits(symbol.Flags,0,1) != 0 && bits(symbol.Flags,0,4) != 0] SyntaxError",
+	"[bits(symbol.Flags,0,1) != 0 && bits(symbol.Flags,0,4) == 0 && bits(symbol.Flags,0,8) != 0] SyntaxError",
+	"[bits(symbol.Flags,0,1) != 0 && bits(symbol.Flags,0,4) == 0 && bits(symbol.Flags,0,8) == 0 && bound != nil] scopes[name] = ScopeGlobalExplicit; global.Add(name); bound.Discard(name)",
+	"[bits(symbol.Flags,0,1) != 0 && bits(symbol.Flags,0,4) == 0 && bits(symbol.Flags,0,8) == 0 && bound == nil] scopes[name] = ScopeGlobalExplicit; global.Add(name)",
+	"[bits(symbol.Flags,0,1) == 0 && bits(symbol.Flags,0,8) != 0 && bits(symbol.Flags,0,4) != 0] SyntaxError",
+	"[bits(symbol.Flags,0,1) == 0 && bits(symbol.Flags,0,8) != 0 && bits(symbol.Flags,0,4) == 0 && bound != nil && !(bound.Contains(name))] SyntaxError",
+	"[bits(symbol.Flags,0,1) == 0 && bits(symbol.Flags,0,8) != 0 && bits(symbol.Flags,0,4) == 0 && bound != nil && bound.Contains(name)] scopes[name] = ScopeFree; st.Free = true; free.Add(name)",
+	"[bits(symbol.Flags,0,1) == 0 && bits(symbol.Flags,0,8) != 0 && bits(symbol.Flags,0,4) == 0 && bound == nil] SyntaxError",
+	"[bits(symbol.Flags,0,1) == 0 && bits(symbol.Flags,0,8) == 0 && bits(symbol.Flags,0,134) != 0] scopes[name] = ScopeLocal; local.Add(name); global.Discard(name)",
+	"[bits(symbol.Flags,0,1) == 0 && bits(symbol.Flags,0,8) == 0 && bits(symbol.Flags,0,134) == 0 && bound != nil && !(bound.Contains(name)) && global != nil && !(global.Contains(name)) && !(st.Nested)] scopes[name] = ScopeGlobalImplicit",
+	"[bits(symbol.Flags,0,1) == 0 && bits(symbol.Flags,0,8) == 0 && bits(symbol.Flags,0,134) == 0 && bound != nil && !(bound.Contains(name)) && global != nil && !(global.Contains(name)) && st.Nested] st.Free = true; scopes[name] = ScopeGlobalImplicit",
+	"[bits(symbol.Flags,0,1) == 0 && bits(symbol.Flags,0,8) == 0 && bits(symbol.Flags,0,134) == 0 && bound != nil && !(bound.Contains(name)) && global != nil && global.Contains(name)] scopes[name] = ScopeGlobalImplicit",
+	"[bits(symbol.Flags,0,1) == 0 && bits(symbol.Flags,0,8) == 0 && bits(symbol.Flags,0,134) == 0 && bound != nil && !(bound.Contains(name)) && global == nil && !(st.Nested)] scopes[name] = ScopeGlobalImplicit",
+	"[bits(symbol.Flags,0,1) == 0 && bits(symbol.Flags,0,8) == 0 && bits(symbol.Flags,0,134) == 0 && bound != nil && !(bound.Contains(name)) && global == nil && st.Nested] st.Free = true; scopes[name] = ScopeGlobalImplicit",
+	"[bits(symbol.Flags,0,1) == 0 && bits(symbol.Flags,0,8) == 0 && bits(symbol.Flags,0,134) == 0 && bound != nil && bound.Contains(name)] scopes[name] = ScopeFree; st.Free = true; free.Add(name)",
+	"[bits(symbol.Flags,0,1) == 0 && bits(symbol.Flags,0,8) == 0 && bits(symbol.Flags,0,134) == 0 && bound == nil && global != nil && !(global.Contains(name)) && !(st.Nested)] scopes[name] = ScopeGlobalImplicit",
+	"[bits(symbol.Flags,0,1) == 0 && bits(symbol.Flags,0,8) == 0 && bits(symbol.Flags,0,134) == 0 && bound == nil && global != nil && !(global.Contains(name)) && st.Nested] st.Free = true; scopes[name] = ScopeGlobalImplicit",
+	"[bits(symbol.Flags,0,1) == 0 && bits(symbol.Flags,0,8) == 0 && bits(symbol.Flags,0,134) == 0 && bound == nil && global != nil && global.Contains(name)] scopes[name] = ScopeGlobalImplicit",
+	"[bits(symbol.Flags,0,1) == 0 && bits(symbol.Flags,0,8) == 0 && bits(symbol.Flags,0,134) == 0 && bound == nil && global == nil && !(st.Nested)] scopes[name] = ScopeGlobalImplicit",
+	"[bits(symbol.Flags,0,1) == 0 && bits(symbol.Flags,0,8) == 0 && bits(symbol.Flags,0,134) == 0 && bound == nil && global == nil && st.Nested] st.Free = true; scopes[name] = ScopeGlobalImplicit",
 }
 
 func analyzeNamePaths(c *Ctx) ([]string, []string) {
